@@ -81,6 +81,12 @@ def case(g, tier, ci):
     if r.random() < 0.3:
         ops += [{"op": "sq.new", "id": "s"}, {"op": "sq.setSR", "id": "s", "v": enc(info["SR"])},
                 {"op": "sq.addElement", "id": "s", "pos": 1, "el": "e"}, {"op": "sq.forge", "id": "s", "delays": True, "filters": True, "time": True}]
+        if (ci % 3) == 1:
+            # a filter compensation on the channel: all four arrays keep the one common length (odd totals included)
+            ops += [{"op": "sq.setAmp", "id": "s", "ch": 1, "v": enc(1e6)},
+                    {"op": "sq.setFilter", "id": "s", "ch": 1, "kind": r.choice(["HP", "LP"]), "order": 1, "orderIsInt": True,
+                     "f_cut": enc(info["SR"] * 0.1), "tau": None},
+                    {"op": "sq.forge", "id": "s", "delays": True, "filters": True, "time": True}]
         if (ci % 2) == 0:
             # the sequence's own sample rate is set (again, to another value) after the element went in: the element
             # is still forged at its blueprints' rate
